@@ -6,7 +6,7 @@ import stream_common as sc  # noqa: E402
 
 PROP = "C01"
 RULE = ("real ssnet.runonce on both tunnel ends over fake sockets, every micro-step replayed on the extracted model and the full "
-        "state of both ends compared after every iteration; cases: bulk transfers in both directions on 1-4 flows, payload sizes around 0/1/2048/32768/65536/100000, random segmentation, latency control on and off; connections arriving on the IPv4 and the IPv6 listener through the real MultiListener.add_handler, dialled to several hosts/ports incl. foreign hosts on the client's own listening port (real helpers.islocal on kernel sockets) — oracles: every captured connection is tunnelled, and to the dialled destination; the tunnel ending under open flows (prefix oracles on everything delivered); a case is non-trivial when at least one flow was "
+        "state of both ends compared after every iteration; cases: bulk transfers in both directions on 1-4 flows, payload sizes around 0/1/2048/32768/65536/100000, random segmentation, latency control on and off, latency windows up to 2^30 with reads of exactly 65535 / 65536 bytes (profile window), an established flow's recv/send/shutdown failing with every errno of stream_common.EST next to a healthy flow; connections arriving on the IPv4 and the IPv6 listener through the real MultiListener.add_handler, dialled to several hosts/ports incl. foreign hosts on the client's own listening port (real helpers.islocal on kernel sockets) — oracles: every captured connection is tunnelled, and to the dialled destination; the tunnel ending under open flows (prefix oracles on everything delivered); a case is non-trivial when at least one flow was "
         "accepted; distinct by case seed; plus (implementation only) the two ends of the ssh channel: the object the real ssh.connect returns "
         "(no read-ahead), the real server.main in a child process on a socket pair (a connection's CONNECT+payload+EOF delivered to "
         "descriptor 0 in one segment reaches the destination without further input, for --latency-buffer-size 100..32768), and one "
@@ -452,7 +452,7 @@ def correspondence(ctx):
     sc.server_reader_check(ctx, PROP)
     shim_tunnel_check(ctx)
     ctx.extra["tunnel_endpoint_checks_wall_s"] = round(time.time() - t0, 2)
-    sc.stream_check(ctx, PROP, PROFILES, 120, 2500)
+    sc.stream_check(ctx, PROP, PROFILES, 120, 2500, tail_profiles=("window",))
 
 
 def replay(ctx, rp):
